@@ -173,6 +173,9 @@ Definition cms_of (l : list (N * list Z)) (v : N) : option (list Z) :=
 
 Inductive case :=
 | CLang (used : list N) (cms : list (N * list Z)) (o : option bytes)          (* EncodeLangViews *)
+(* EncodeLangViews where the cost model of language v is `n` copies of `z` (built here, so that
+   very long tables need no long literal); the observed output is given as pre ++ k copies of byte b ++ suf *)
+| CLangRep (used : list N) (cms : list (N * list Z)) (v n : N) (z : Z) (o : option (bytes * N * N * bytes))
 | CLex (a b : bytes) (o : Z)                                                   (* ShortLex *)
 | CRule (t : txview) (cms : list (N * list Z)) (tbl : list (bytes * bytes))
         (o_class : N) (o_computed : option bytes).                             (* the era's rule *)
@@ -182,6 +185,13 @@ Definition optb_eqb := opt_eqb bytes_eqb.
 Definition check_case (c : case) : bool :=
   match c with
   | CLang used cms o => optb_eqb (encode_lang_views used (cms_of cms)) o
+  | CLangRep used cms v n z o =>
+      let cms' := fun w => if w =? v then Some (repeat z (N.to_nat n)) else cms_of cms w in
+      match encode_lang_views used cms', o with
+      | Some out, Some (pre, b, k, suf) => bytes_eqb out (pre ++ repeat b (N.to_nat k) ++ suf)
+      | None, None => true
+      | _, _ => false
+      end
   | CLex a b o => (short_lex a b =? o)%Z
   | CRule t cms tbl oc oh =>
       let '(mc, mh) := script_data_hash_rule (h_tbl tbl) (cms_of cms) t in
